@@ -86,6 +86,11 @@ func (h *connectHandler) ContentTypes() map[string]struct{} {
 func (*connectHandler) SetTimeout(request *http.Request) (context.Context, context.CancelFunc, error) {
 	timeout := request.Header.Get(connectHeaderTimeout)
 	if timeout == "" {
+		if len(request.Header[connectHeaderTimeout]) > 0 {
+			// Present but empty is not the same as absent: it is a timeout
+			// without digits.
+			return nil, nil, errorf(CodeInvalidArgument, "parse timeout: header is empty")
+		}
 		return request.Context(), nil, nil
 	}
 	if len(timeout) > 10 {
